@@ -323,7 +323,7 @@ def engine_case(definition=None, data=None, plans=None, raw=None, max_steps=1500
         # the engine keeps serving: a further execution completes
         n_err = len(s.errors)
         e2 = s.start_execution(ARN + "healthy", {"x": 1}, name="after")
-        run_fair(s, 400)
+        run_fair(s, 400 if quiescent else 2500)      # a (legitimately or not) spinning execution shares the steps
         res["after"] = view(s, e2)
         res["errors_after"] = [(e[0], e[2][-400:]) for e in s.errors[n_err:]]
     finally:
@@ -355,7 +355,7 @@ def outcome(res):
     p = res["poison"]
     if p is None or p["status"] is None:
         return "dropped"
-    if p["status"] == "FAILED" and ILLEGAL in (res.get("cause") or ""):
+    if p["status"] == "FAILED" and ILLEGAL in str(res.get("cause") or ""):
         return "illegal"
     if p["status"] == "RUNNING":
         return "stuck" if res["quiescent"] else "spinning"
@@ -393,7 +393,8 @@ def classify(f, case, impl, model):
                    "an execution started afterwards does not complete as usual"}
         return (impl.get("outcome") == "spinning" and set(impl.get("laws") or []) <= allowed
                 and impl.get("healthy", {}).get("status") == "SUCCEEDED"
-                and any('named ""' in p or 'required field "StartAt"' in p for p in probs))
+                and any('named ""' in p or 'required field "StartAt"' in p or "but should be a String" in p
+                        or "should be non-null" in p for p in probs))
     return False
 
 
@@ -465,16 +466,19 @@ def check_definition(chk, d, label, data, plans, vres, wf, case_extra=None):
     res = engine_case(definition=d, data=data, plans=plans)
     oc = outcome(res)
     laws = judge(res)
-    if wf and "a delivery is left unacknowledged" in laws:
-        # acknowledgement completeness of runs of well-formed machines is the subject of C03/C06, not of C18
-        laws.remove("a delivery is left unacknowledged")
+    if wf:
+        # acknowledgement completeness of runs of well-formed machines is the subject of C03/C06, and a well-formed
+        # machine may loop for ever (Next back to an earlier state): neither is C18's business
+        for l in ("a delivery is left unacknowledged", "the engine never becomes quiescent (events are produced forever)"):
+            if l in laws:
+                laws.remove(l)
     accepted = vres == ("ok", [])
-    if oc in ("stuck", "spinning"):
+    if oc == "stuck" or (oc == "spinning" and not wf):
         laws.append("its own execution is left RUNNING for ever instead of FAILED")
     if accepted and oc == "illegal":
         laws.insert(0, "a definition the validator accepts fails at run time as an Illegal State Machine")
     impl = {"validator": vres[1] if vres[0] == "ok" else vres, "outcome": oc, "poison": res["poison"],
-            "cause": (res.get("cause") or "")[:300], "errors": res["errors"][:1], "healthy": res["healthy"],
+            "cause": str(res.get("cause") or "")[:300], "errors": res["errors"][:1], "healthy": res["healthy"],
             "after": res["after"], "broker_unacked": res["broker_unacked"], "queued": res["queued"], "laws": laws}
     if laws:
         chk.report("impl-violates-law", case, impl=impl, model={"WF": wf}, law="; ".join(laws), classify=classify)
@@ -485,12 +489,12 @@ def run(chk):
     quick = chk.tier == "quick"
     chk.lean_stage()
     rng = chk.rng
-    n_mut = 1400 if quick else 30000
-    n_json = 300 if quick else 5000
-    n_base = 60 if quick else 1000
-    engine_cap_wf = 60 if quick else 1500         # accepted and WF: sampled
-    engine_cap_rejected = 90 if quick else 2000   # rejected by the validator, stored anyway: sampled (poison definitions)
-    n_events = 40 if quick else 600               # runs, 3 poison events each
+    n_mut = 3000 if quick else 30000
+    n_json = 600 if quick else 5000
+    n_base = 300 if quick else 1000
+    engine_cap_wf = 120 if quick else 1500         # accepted and WF: sampled
+    engine_cap_rejected = 150 if quick else 2000   # rejected by the validator, stored anyway: sampled (poison definitions)
+    n_events = 80 if quick else 600               # runs, 3 poison events each
 
     cases = []          # (definition, label, input, plans)
     corpus_events = []
@@ -635,7 +639,7 @@ def replay(chk, path):
     print("model    :", common.driver([wf_line(d)])[0])
     if "input" in c:
         res = engine_case(definition=d, data=c["input"], plans=c.get("plans") or {})
-        print("engine   : outcome", outcome(res), "poison", cj(res["poison"]), "cause", (res.get("cause") or "")[:300])
+        print("engine   : outcome", outcome(res), "poison", cj(res["poison"]), "cause", str(res.get("cause") or "")[:300])
         print("laws broken:", judge(res), "errors:", res["errors"][:1])
         print("healthy  :", cj(res["healthy"]), "after:", cj(res["after"]))
     return 0
